@@ -14,6 +14,9 @@ from, over whole histories of builds, processes and repository updates:
   complete or cut short;
 * the HEAD memo (`Cache.etagCache`): a table (cache object, memo key) ↦ ETag that lives in a `*apk.Cache`
   value — as long as that value, at most as long as the process (`exit` empties it);
+* the process-wide table of parsed indexes (`globalIndexCache` in `index.go`): (URL, ETag) ↦ the parsed index
+  or the ERROR of the first attempt, consulted after the HEAD and before anything is read from the disk cache or
+  the network, by builds with and without the disk cache alike (`parsed`; `exit` empties it);
 * `Cfg`: the choices the code makes and mutations change — the entry directory of a URL (`dirOf`), the key
   under which `head` remembers the HEAD answer of a URL (`memoKey`: the URL's cache file, i.e. the URL
   itself), whether `retrieveAndSaveFile` returns the error of `io.Copy` (`copyErrKept`), whether
@@ -50,6 +53,7 @@ structure St where
   srv : List (Url × Etag × Body) := []
   files : List File := []
   memo : List ((CacheId × MemoKey) × Etag) := []
+  parsed : List ((Url × Etag) × Option Body) := []
   deriving Repr
 
 /-- a response body as the caller reads it: the body and whether it is complete; `none` = an error -/
@@ -101,6 +105,36 @@ def fetch (cfg : Cfg) (s : St) (c : CacheId) (hasMemo : Bool) (u : Url) (cut : B
           else advertise s1 (cfg.dirOf u) e2 b2 false
         else advertise s1 (cfg.dirOf u) e2 b2 true
 
+def St.parsedGet (s : St) (u : Url) (e : Etag) : Option (Option Body) :=
+  (s.parsed.find? fun p => p.1 = (u, e)).map (·.2)
+
+/-- what `fetchAndParse` makes of a response: a complete body parses, a cut one does not (gzip trailer, signature) -/
+def parseRes : Res → Option Body
+  | some (b, true) => some b
+  | _ => none
+
+/-- `indexCache.get` for a remote index through the caching transport: HEAD (through `cacheTransport.head`), the
+process-wide table of parsed indexes keyed by URL@ETag, else `fetchRepositoryIndex` (the ETag travels in a request
+header, `fetchAndCache` does not ask again) and parse; the outcome — also an error — is remembered -/
+def fetchIndex (cfg : Cfg) (s : St) (c : CacheId) (hasMemo : Bool) (u : Url) (cut : Bool) : St × Res :=
+  match head cfg s c hasMemo u with
+  | none => (s, none)
+  | some (e, s1) =>
+    match s1.parsedGet u e with
+    | some r => (s1, r.map fun b => (b, true))
+    | none =>
+      let r := fetch cfg s1 c hasMemo u cut
+      ({ r.1 with parsed := r.1.parsed ++ [((u, e), parseRes r.2)] }, (parseRes r.2).map fun b => (b, true))
+
+/-- the same without the disk cache: a HEAD request, the table of parsed indexes, else a GET -/
+def fetchIndexDirect (s : St) (u : Url) : St × Res :=
+  match s.cur u with
+  | none => (s, none)
+  | some (e, b) =>
+    match s.parsedGet u e with
+    | some r => (s, r.map fun b => (b, true))
+    | none => ({ s with parsed := s.parsed ++ [((u, e), some b)] }, some (b, true))
+
 /-- is `f` a candidate of `fetchOffline` for directory `d` -/
 def offlineCand (cfg : Cfg) (d : Dir) (f : File) : Bool :=
   f.dir = d && (f.etag.isSome || !cfg.offlineSkipsTmp)
@@ -112,19 +146,25 @@ def fetchOffline (cfg : Cfg) (s : St) (u : Url) : Res :=
 inductive Ev where
   | publish (u : Url) (e : Etag) (b : Body)                     -- the server starts to serve (e, b) under u
   | fetch (c : CacheId) (hasMemo : Bool) (u : Url) (cut : Bool)  -- a request through the caching transport
+  | index (c : CacheId) (hasMemo : Bool) (u : Url) (cut : Bool)  -- an index request of a build with the disk cache
+  | indexDirect (u : Url)                                        -- an index request of a build without it
   | offline (u : Url)                                            -- the same request of an offline build
-  | exit                                                         -- a process ends: its cache objects are gone
+  | exit                                                         -- a process ends: its cache objects and tables are gone
   deriving DecidableEq, Repr
 
 def step (cfg : Cfg) (s : St) : Ev → St
   | .publish u e b => { s with srv := (u, e, b) :: s.srv }
   | .fetch c m u cut => (fetch cfg s c m u cut).1
+  | .index c m u cut => (fetchIndex cfg s c m u cut).1
+  | .indexDirect u => (fetchIndexDirect s u).1
   | .offline _ => s
-  | .exit => { s with memo := [] }
+  | .exit => { s with memo := [], parsed := [] }
 
 /-- what the caller of the event gets (`none` for events that are no requests) -/
 def answer (cfg : Cfg) (s : St) : Ev → Option Res
   | .fetch c m u cut => some (fetch cfg s c m u cut).2
+  | .index c m u cut => some (fetchIndex cfg s c m u cut).2
+  | .indexDirect u => some (fetchIndexDirect s u).2
   | .offline u => some (fetchOffline cfg s u)
   | _ => none
 
